@@ -12,6 +12,11 @@ CHECKS = {
         text="Machine-checked theorems (C13_get_after_set, C13_frame, C13_refines_class_map, C13_len_classes) about an executable Gallina model of AliasDict for all alias relations, values and operation sequences; the model is tied to the code by running both on generated alias graphs and op sequences every run; a disagreement is judged against the Coq class-map specification.",
         note="Trusted: Coq kernel + vm_compute; harness generators/printers; pymoca AliasRelation is an input (its canonical_signed table, sanity-checked by an independent union-find). No axioms (Print Assumptions: closed). End-to-end alias use inside ModelicaMixin/SimulationProblem is exercised by C14/C09 harnesses, not proved.",
         ref="DESIGN.md §5 C13"),
+    "C18": dict(
+        technique="Coq proof (loop invariant by induction on fuel for every oracle; termination by an explicit budget argument) + exhaustive correspondence of the Gallina loop against HomotopyMixin.optimize driven by scripted inner solves",
+        text="C18_protocol proves, for all options with theta_start in [0,1] and positive increments and for every success/failure oracle, that the trace of the modelled loop satisfies the decidable predicate trace_ok (first solve at theta_start, theta<=1, increase only after success, step back with halved increment after failure, success only by a solve at 1, failure exactly when the first solve fails or the halved increment drops below the minimum, seeding from the last accepted solve); C18_terminates gives an explicit bound on the number of solves. The real loop is run on all scripts up to length 7 (quick) / 11 (thorough) for 26 option triples and compared event by event with the model (dyadic options, exact) and with trace_ok evaluated in Coq (all options).",
+        note="Trusted: Coq kernel + vm_compute; the scripted inner optimize() standing in for the solver; binary64 rounding is not modelled (non-dyadic options are judged by trace_ok with tol 1e-9 only). No axioms. The unrepaired loop violated the property (fixed in /repo 9c3aba5, see known_findings.json).",
+        ref="DESIGN.md §5 C18"),
 }
 
 PENDING_REASON = "check not built yet (work in progress; see DESIGN.md §7 build order) — not claimed until its Coq model, theorems and correspondence check run clean on the unchanged tree"
